@@ -163,6 +163,10 @@ pub fn c14(args: &Args) {
         let s: Vec<u8> = (0..l).map(|i| (i * 31 % 251) as u8).collect();
         out.emit(h2p_event(&s, "length-64k"));
     }
+    // the corpus of extreme streams (offline search, corpus.rs): many rejected chunks early, long runs of rejected chunks
+    for (i, tag) in crate::corpus::H2P_EXTREME.iter().take(if thorough { 12 } else { 8 }) {
+        out.emit(h2p_event(&crate::corpus::h2p_string(*i), tag));
+    }
     // long then short, and the same string twice with another in between (state kept between calls)
     {
         let long: Vec<u8> = (0..5000).map(|i| (i % 253) as u8).collect();
